@@ -508,7 +508,7 @@ example : histStep 0 pyLower ⟨some BS.Gen.c17DefaultCdataListAttributes, .plai
 /-- Making another tag — a later start tag (same or later document), `new_tag`, a copy — leaves every tag made before
     exactly as it was. -/
 theorem creation_leaves_earlier_tags_unchanged (md : Nat) (lower : PStr → PStr) (b : BuilderCfg) (st st' : Hist)
-    (s : Step) (hs : (∃ n a, s = .parse n a) ∨ (∃ n d, s = .newTag n d) ∨ (∃ i, s = .copy i))
+    (s : Step) (hs : (∃ n a, s = .parse n a) ∨ (∃ n d, s = .newTag n d) ∨ (∃ i, s = .copy i) ∨ (∃ i x, s = .ctor i x))
     (h : histStep md lower b st s = .ok st') : ∀ j, j < st.length → st'[j]? = st[j]? := by
   intro j hj
   have key : ∀ (r : Res TagAttrs) (n : PStr),
@@ -520,9 +520,13 @@ theorem creation_leaves_earlier_tags_unchanged (md : Nat) (lower : PStr → PStr
       simp only [Res.bind, Res.ok.injEq] at hr
       subst hr
       exact List.getElem?_append_left hj
-  rcases hs with ⟨n, a, rfl⟩ | ⟨n, d, rfl⟩ | ⟨i, rfl⟩
+  rcases hs with ⟨n, a, rfl⟩ | ⟨n, d, rfl⟩ | ⟨i, rfl⟩ | ⟨i, x, rfl⟩
   · exact key _ _ h
   · exact key _ _ h
+  · simp only [histStep] at h
+    cases hi : st[i]? with
+    | none => simp only [hi, Res.ok.injEq] at h; subst h; rfl
+    | some p => simp only [hi] at h; exact key _ _ h
   · simp only [histStep] at h
     cases hi : st[i]? with
     | none => simp only [hi, Res.ok.injEq] at h; subst h; rfl
@@ -873,21 +877,37 @@ theorem del_leaves_others_unchanged (md : Nat) (lower : PStr → PStr) (b : Buil
     | some p => simp [dictGet_del_self]
 
 /-- A copy (`copy_self`) holds the same kind of dictionary as the original, keeps `is_xml`, uses the default list
-    class, and its values are the original's values assigned through that dictionary class (lists in new lists) —
-    unless the discarded builder-less first pass raised. -/
-theorem copy_keeps_container (md : Nat) (lower : PStr → PStr) (b : BuilderCfg) (st st' : Hist) (i : Nat)
-    (n : PStr) (t : TagAttrs) (hi : st[i]? = some (n, t)) (h : histStep md lower b st (.copy i) = .ok st') :
-    ∃ t', st' = st ++ [(n, t')] ∧ t'.cls = t.cls ∧ t'.listCls = 1 ∧ t'.isXml = t.isXml ∧
-      copyInto md t.cls t.items [] = .ok t'.items := by
-  simp only [histStep, hi, copyTag, tagInit] at h
-  cases h0 : copyInto md (if t.isXml then DictClass.xml else DictClass.html) t.items [] with
-  | valueError => simp [h0, Res.bind] at h
-  | ok d0 =>
-    cases hc : copyInto md t.cls t.items [] with
-    | valueError => simp [h0, hc, Res.bind] at h
-    | ok d' =>
-      simp only [h0, hc, Res.bind, Res.ok.injEq] at h
-      exact ⟨_, h.symm, rfl, rfl, rfl, rfl⟩
+    class, and its values are the original's values assigned through that dictionary class (lists in new lists); it
+    fails only if that assignment fails (an HTML/XML container meeting an int beyond the digit limit). -/
+theorem copy_keeps_container (md : Nat) (lower : PStr → PStr) (b : BuilderCfg) (st : Hist) (i : Nat)
+    (n : PStr) (t : TagAttrs) (hi : st[i]? = some (n, t)) :
+    (∀ st', histStep md lower b st (.copy i) = .ok st' →
+      ∃ t', st' = st ++ [(n, t')] ∧ t'.cls = t.cls ∧ t'.listCls = 1 ∧ t'.isXml = t.isXml ∧
+        copyInto md t.cls t.items [] = .ok t'.items) ∧
+    (histStep md lower b st (.copy i) = .valueError ↔ copyInto md t.cls t.items [] = .valueError) := by
+  simp only [histStep, hi, copyTag, tagInit]
+  cases hc : copyInto md t.cls t.items [] with
+  | valueError => simp [Res.bind]
+  | ok d' =>
+    refine ⟨?_, by simp [Res.bind]⟩
+    intro st' h
+    simp only [Res.bind, Res.ok.injEq] at h
+    exact ⟨_, h.symm, rfl, rfl, rfl, rfl⟩
+
+/-- a copy of a tag whose *plain* dictionary holds anything at all never fails and holds exactly the same items -/
+theorem copy_of_plain_dict_never_fails (md : Nat) (lower : PStr → PStr) (n : PStr) (lc : Nat) (x : Bool) (d : Items)
+    (hnd : (keys d).Nodup) : copyTag md lower n ⟨.plain, lc, d, x⟩ = .ok ⟨.plain, 1, d, x⟩ := by
+  have := copyInto_plain md d [] (by simpa using hnd)
+  simp only [List.nil_append] at this
+  simp [copyTag, tagInit, this, Res.bind]
+
+/-- Documentation of the defect repaired by fixes/C17-copy-no-constructor-pass.diff: with the constructor still handed
+    the attributes, copying a tag whose plain dictionary holds an int beyond the digit limit raised `ValueError` (the
+    discarded HTML container called `str()` on it), while the repaired copy keeps the value. -/
+theorem copy_first_pass_raises_old :
+    copyTagOld 2 pyLower (ofS "a") ⟨.plain, 1, [(ofS "n", .int 100)], false⟩ = .valueError ∧
+    copyTag 2 pyLower (ofS "a") ⟨.plain, 1, [(ofS "n", .int 100)], false⟩
+      = .ok ⟨.plain, 1, [(ofS "n", .int 100)], false⟩ := by decide +kernel
 
 /-- … and for a tag as a parser leaves it (distinct keys, strings and lists) the copy's attributes are exactly the
     original's, whatever the dictionary class. -/
@@ -902,5 +922,127 @@ theorem copy_of_parsed_tag_identical (md : Nat) (lower : PStr → PStr) (n : PSt
 
 example : copyTag 0 pyLower (ofS "p") ⟨.plain, 2, [(ofS "class", .list 2 [ofS "a"]), (ofS "k", .int 0)], false⟩
     = .ok ⟨.plain, 1, [(ofS "class", .list 2 [ofS "a"]), (ofS "k", .int 0)], false⟩ := by decide +kernel
+
+/-! ## the regex engine's view, and the builder's options -/
+
+/-- Refinement: the scanner `splitWs` computes what `re.findall(r"\S+", s)` computes when it is read as the engine
+    proceeds — at each position a greedy match attempt, otherwise one character on — for every string. All the laws
+    above therefore hold of that reading too. -/
+theorem split_is_regex_findall (s : PStr) : findallNonWs s = splitWs s := findall_eq_splitWs s
+
+example : findallNonWs (ofS "  ab \t c") = [ofS "ab", ofS "c"] := by decide +kernel
+
+/-- `multi_valued_attributes`: leaving it out means the builder class's table, `None` disables splitting, a map replaces
+    the table — nothing is merged with the default; the dictionary and list classes default to the plain ones. With the
+    resulting configuration the facts above apply: `none_disables`, `custom_map_exact`, `parsed_start_tag`. -/
+theorem builder_options_meaning (dflt m : CdataMap) (x : Bool) (dc : Option DictClass) (lc : Option Nat) :
+    (mkBuilder dflt x .useDefault dc lc).cdata = some dflt ∧
+    (mkBuilder dflt x .none dc lc).cdata = none ∧
+    (mkBuilder dflt x (.map m) dc lc).cdata = some m ∧
+    (mkBuilder dflt x .useDefault none none).dictCls = .plain ∧ (mkBuilder dflt x .useDefault none none).listCls = 1 ∧
+    (∀ c, (mkBuilder dflt x .useDefault (some c) lc).dictCls = c) ∧
+    (∀ c, (mkBuilder dflt x .useDefault dc (some c)).listCls = c) ∧
+    (mkBuilder dflt x .useDefault dc lc).isXml = x :=
+  ⟨rfl, rfl, rfl, rfl, rfl, fun _ => rfl, fun _ => rfl, rfl⟩
+
+/-- `on_duplicate_attribute`: absent, `None` and `"replace"` all mean replace; `"ignore"` ignore; a callable is called;
+    any other string is not a policy (Python raises `TypeError` at the first repeated attribute). -/
+theorem on_duplicate_setting_meaning (f : Items → PStr → PStr → Items) (s : PStr) :
+    resolveOnDup .absent = some .replace ∧ resolveOnDup .pyNone = some .replace ∧
+    resolveOnDup (.str replaceStr) = some .replace ∧ resolveOnDup (.str ignoreStr) = some .ignore ∧
+    (s ≠ replaceStr → s ≠ ignoreStr → resolveOnDup (.str s) = none) ∧
+    (∃ g, resolveOnDup (.callable f) = some (.callable g) ∧ g = f) := by
+  refine ⟨rfl, rfl, by simp [resolveOnDup, replaceStr, ignoreStr], by simp [resolveOnDup, ignoreStr], ?_, ⟨f, rfl, rfl⟩⟩
+  intro h1 h2
+  have e1 : (s == ignoreStr) = false := by simpa using h2
+  have e2 : (s == replaceStr) = false := by simpa using h1
+  simp [resolveOnDup, e1, e2]
+
+example : resolveOnDup (.str [82, 101, 112, 108, 97, 99, 101]) = none := by
+  simp [resolveOnDup, replaceStr, ignoreStr]
+
+/-- `on_duplicate_attribute` is consulted for repeated attributes only: on a start tag whose attribute names are all
+    different every setting — replace, ignore, any callable, even a string that is no policy — gives the same tag. -/
+theorem policy_irrelevant_without_repeats (md : Nat) (lower : PStr → PStr) (b : BuilderCfg) (p1 p2 : OnDup)
+    (a : OnDupArg) (name : PStr) (attrs : List (PStr × Option PStr)) (h : hasDupKey (attrs.map (·.1)) = false) :
+    parseStartTag md lower b p1 name attrs = parseStartTag md lower b p2 name attrs ∧
+    parseStartTagArg md lower b a name attrs = some (parseStartTag md lower b .replace name attrs) := by
+  have hnd := hasDupKey_false_nodup _ h
+  have hl : ∀ q1 q2, startTagLoop md b.dictCls q1 attrs [] = startTagLoop md b.dictCls q2 attrs [] :=
+    fun q1 q2 => startTagLoop_nodup md b.dictCls q1 q2 attrs [] (by simpa [keys] using hnd)
+  refine ⟨by simp only [parseStartTag, hl p1 p2], ?_⟩
+  unfold parseStartTagArg
+  cases hr : resolveOnDup a with
+  | none => simp [h]
+  | some p => simp only [parseStartTag, hl p .replace]
+
+example : hasDupKey ([(ofS "id", some (ofS "x")), (ofS "class", none)].map (·.1)) = false := by decide
+
+/-- … and a string that is neither `"replace"` nor `"ignore"` fails (`TypeError`) exactly when an attribute repeats. -/
+theorem bad_policy_string_fails_iff_repeat (md : Nat) (lower : PStr → PStr) (b : BuilderCfg) (s : PStr)
+    (h1 : s ≠ replaceStr) (h2 : s ≠ ignoreStr) (name : PStr) (attrs : List (PStr × Option PStr)) :
+    parseStartTagArg md lower b (.str s) name attrs = none ↔ hasDupKey (attrs.map (·.1)) = true := by
+  have hr := (on_duplicate_setting_meaning (fun d _ _ => d) s).2.2.2.2.1 h1 h2
+  unfold parseStartTagArg
+  rw [hr]
+  cases hasDupKey (attrs.map (·.1)) <;> simp
+
+/-! ## non-vacuity of the hypotheses used above -/
+
+example : splitWs (ofS " x\tyz ") = [ofS "x", ofS "yz"] :=
+  split_is_the_maximal_runs (ofS " x\tyz ") [32] [([120], [9]), ([121, 122], [32])] (by simp [AllWs]; decide)
+    (by simp [GoodItems, Tok, AllWs]; decide) (by decide)
+
+example : splitWs (joinSp [ofS "a", ofS "bc"]) = [ofS "a", ofS "bc"] :=
+  split_join_tokens _ (by
+    intro t ht
+    simp at ht
+    rcases ht with rfl | rfl <;> exact ⟨by decide, by decide⟩)
+
+example : dictGet (replaceSpec (some BS.Gen.c17DefaultCdataListAttributes) pyLower 1 (ofS "a")
+      [(ofS "rel", .str (ofS "x  y")), (ofS "id", .str (ofS "x  y"))]) (ofS "rel") = some (.list 1 [ofS "x", ofS "y"]) :=
+  ((split_iff_covered BS.Gen.c17DefaultCdataListAttributes pyLower 1 (ofS "a")
+      [(ofS "rel", .str (ofS "x  y")), (ofS "id", .str (ofS "x  y"))] (ofS "rel") (ofS "x  y") (by decide +kernel)).1).mpr
+    (by decide +kernel)
+
+example : dictGet (replaceSpec (some BS.Gen.c17DefaultCdataListAttributes) pyLower 1 (ofS "a")
+      [(ofS "rel", .str (ofS "x  y")), (ofS "id", .str (ofS "x  y"))]) (ofS "id") = some (.str (ofS "x  y")) := by
+  rw [others_verbatim _ _ _ _ _ _ (by decide +kernel)]; decide +kernel
+
+example : dictGet (replaceSpec (some BS.Gen.c17DefaultCdataListAttributes) pyLower 1 (ofS "p")
+      [(ofS "class", .list 0 [ofS "a b"])]) (ofS "class") = some (.list 0 [ofS "a b"]) :=
+  list_values_kept _ _ _ _ _ _ _ _ (by decide +kernel)
+
+example : (keys [(ofS "rel", PyVal.str (ofS "x  y")), (ofS "id", .str [])]).Nodup ∧
+    ∀ p ∈ [(ofS "rel", PyVal.str (ofS "x  y")), (ofS "id", PyVal.str [])], StrOrList p.2 := by
+  refine ⟨by decide, ?_⟩
+  intro p hp; simp at hp; rcases hp with rfl | rfl <;> trivial
+
+example : isMulti BS.Gen.c17DefaultCdataListAttributes pyLower (ofS "TH") (ofS "headers") = true :=
+  default_table_every_entry_honoured pyLower (ofS "TH") (ofS "headers") (ofS "th", [ofS "headers"])
+    (by decide +kernel) (by decide) (Or.inr (by decide +kernel))
+
+example : isMulti BS.Gen.c17DefaultCdataListAttributes pyLower (ofS "a") (mkNs (some (ofS "svg")) (some (ofS "class"))).str
+    = false :=
+  (prefixed_attributes_never_split pyLower (ofS "a") (ofS "svg") (ofS "class") (by decide) (by decide)).2.1
+
+example : htmlSetOld 4300 [] (.plain [107]) (.int 5) = htmlSet 4300 [] (.plain [107]) (.int 5) :=
+  old_agrees_elsewhere _ _ _ _ (Or.inl (by decide))
+
+example : getAttributeList ⟨.plain, 2, [(ofS "id", .str (ofS "x"))], false⟩ (ofS "id") .none = .strs 2 [ofS "x"] :=
+  (get_attribute_list_spec ⟨.plain, 2, [(ofS "id", .str (ofS "x"))], false⟩ (ofS "id")).2.2.2.1 _ (by decide)
+
+example : tagDel ⟨.plain, 1, [(ofS "id", .str []), (ofS "k", .int 0)], false⟩ (ofS "id")
+    = ⟨.plain, 1, [(ofS "k", .int 0)], false⟩ := by decide
+
+example : histStep 0 pyLower ⟨none, .plain, 1, false⟩ [(ofS "p", ⟨.html, 2, [(ofS "k", .str [])], true⟩)] (.copy 0)
+    = .ok [(ofS "p", ⟨.html, 2, [(ofS "k", .str [])], true⟩), (ofS "p", ⟨.html, 1, [(ofS "k", .str [])], true⟩)] := by
+  decide +kernel
+
+example : ∀ j, j < 1 → ([(ofS "p", (⟨.plain, 1, [], false⟩ : TagAttrs)), (ofS "a", ⟨.plain, 1, [], false⟩)] : Hist)[j]?
+    = ([(ofS "p", ⟨.plain, 1, [], false⟩)] : Hist)[j]? :=
+  creation_leaves_earlier_tags_unchanged 0 pyLower ⟨none, .plain, 1, false⟩ [(ofS "p", ⟨.plain, 1, [], false⟩)]
+    [(ofS "p", ⟨.plain, 1, [], false⟩), (ofS "a", ⟨.plain, 1, [], false⟩)] (.newTag (ofS "a") [])
+    (Or.inr (Or.inl ⟨_, _, rfl⟩)) (by decide +kernel)
 
 end BS.Props.C17
